@@ -81,7 +81,7 @@ func runC15(c *Ctx) {
 		}
 		c.Require("C15.R2 header-provenance", FuncKey(initH)+": own record", p.Pos(initH.Pos()), "the info decoded is the record stored under this generator's address", okRec, "")
 		vals := map[string]*Term{}
-		for _, b := range initH.Blocks {
+		for _, b := range blocksDeep(initH) {
 			for _, in := range b.Instrs {
 				if st, ok := in.(*ssa.Store); ok {
 					if fa, ok := st.Addr.(*ssa.FieldAddr); ok {
@@ -134,7 +134,7 @@ func runC15(c *Ctx) {
 			sg := signs[0].Call
 			late := ""
 			n := 0
-			for _, b := range seal.Blocks {
+			for _, b := range blocksDeep(seal) {
 				for _, in := range b.Instrs {
 					if st, ok := in.(*ssa.Store); ok {
 						if fa, ok := st.Addr.(*ssa.FieldAddr); ok {
